@@ -359,6 +359,11 @@ func ResolveCellLoad(v ssa.Value) ssa.Value {
 							v = st[0]
 							continue
 						}
+						// ... or a local computed once before the literal was made
+						if storedBeforeClosures(c) {
+							v = st[0]
+							continue
+						}
 					}
 				}
 			}
@@ -717,4 +722,60 @@ func TableRows(args []ssa.Value) (rows [][]ssa.Value, ok bool) {
 		rows = append(rows, vals)
 	}
 	return rows, len(rows) > 0
+}
+
+// storedBeforeClosures reports whether the single store into cell c comes, on
+// every path, before every function literal that captures c is created (so
+// that the literal can only ever see the stored value).
+func storedBeforeClosures(c *ssa.Alloc) bool {
+	var st *ssa.Store
+	var mcs []*ssa.MakeClosure
+	for _, u := range Users(c) {
+		switch y := u.(type) {
+		case *ssa.Store:
+			if y.Addr != ssa.Value(c) || st != nil {
+				return false
+			}
+			st = y
+		case *ssa.MakeClosure:
+			mcs = append(mcs, y)
+		}
+	}
+	if st == nil || len(mcs) == 0 {
+		return false
+	}
+	idx := func(in ssa.Instruction) int {
+		for i, x := range in.Block().Instrs {
+			if x == in {
+				return i
+			}
+		}
+		return -1
+	}
+	for _, mc := range mcs {
+		if st.Block() == mc.Block() {
+			if idx(st) > idx(mc) {
+				return false
+			}
+		} else if !st.Block().Dominates(mc.Block()) {
+			return false
+		}
+		// the literals must not assign to it themselves
+		if lit, ok := mc.Fn.(*ssa.Function); ok {
+			for i, b := range mc.Bindings {
+				if b != ssa.Value(c) || i >= len(lit.FreeVars) {
+					continue
+				}
+				for _, u := range Users(lit.FreeVars[i]) {
+					if s2, isSt := u.(*ssa.Store); isSt && s2.Addr == ssa.Value(lit.FreeVars[i]) {
+						return false
+					}
+					if _, isMC := u.(*ssa.MakeClosure); isMC {
+						return false
+					}
+				}
+			}
+		}
+	}
+	return true
 }
